@@ -96,7 +96,16 @@ pub fn run_bisync(
 
     let host = host_id();
     // Start from the trusted base and mutate to the new common state as we apply.
-    let mut common = base;
+    // Entries for paths that are gone from BOTH sides are dropped here: no action
+    // ever visits them, so they would stay in the archive forever, and a file later
+    // re-created at such a path with its old content would be taken for "unchanged
+    // since the base, deleted on the other side" and deleted.
+    let mut common = FpMap::new();
+    for (p, fp) in &base {
+        if a.contains_key(p) || b.contains_key(p) {
+            common.insert(p.clone(), *fp);
+        }
+    }
     let mut conflict_paths: Vec<PathBuf> = Vec::new();
     for (path, act) in &plan {
         apply(
